@@ -322,7 +322,15 @@ pub fn replay_rows<P: PT, C: Coll<P>>(
             }
             if !ok {
                 if let Some(side) = side.as_mut() {
-                    c.obs_line(ctx, &universe).map(|l| writeln!(side, "{}", l).unwrap());
+                    // the contents the path should have produced, for the state-relative facets
+                    let mut ee = vec![];
+                    tree_entries(&ctx.norm_tree(f), &mut ee);
+                    let exp_e: Vec<Value> = ee.iter().map(|x| json!({"n": x[0], "h": x[1], "v": x[2]})).collect();
+                    if let Some(l) = c.obs_line(ctx, &universe) {
+                        let mut v: Value = serde_json::from_str(&l).unwrap();
+                        v["expE"] = Value::Array(exp_e);
+                        writeln!(side, "{}", serde_json::to_string(&v).unwrap()).unwrap();
+                    }
                     rep.side_obs += 1;
                 }
             }
